@@ -50,7 +50,7 @@ def _is_super_init(st: ast.stmt) -> Optional[ast.Call]:
     return None
 
 
-def flatten_init(repo: Repo, cls: ClassInfo, inline_props: bool = True) -> Tuple[List[ast.stmt], List[FuncInfo]]:
+def flatten_init(repo: Repo, cls: ClassInfo, inline_props: bool = True, node_of: Any = None) -> Tuple[List[ast.stmt], List[FuncInfo]]:
     """
     Body of cls.__init__ with every top-level `super().__init__(...)` statement replaced by the (recursively
     flattened) parent constructor: parameters become assignments, parent locals get a `__pN_` prefix.
@@ -59,7 +59,7 @@ def flatten_init(repo: Repo, cls: ClassInfo, inline_props: bool = True) -> Tuple
     init = repo.lookup_method(cls, "__init__")
     if init is None or init.cls is None:
         return [], []
-    out, chain = _flatten_from(repo, cls, init.cls, 0)
+    out, chain = _flatten_from(repo, cls, init.cls, 0, node_of)
     if inline_props:
         out = [inline_properties(repo, cls, s) for s in out]
     for s in out:
@@ -104,12 +104,13 @@ def inline_properties(repo: Repo, cls: ClassInfo, node: ast.AST, depth: int = 4,
     return T(depth).visit(copy.deepcopy(node))
 
 
-def _flatten_from(repo: Repo, cls: ClassInfo, start: ClassInfo, depth: int) -> Tuple[List[ast.stmt], List[FuncInfo]]:
-    """flatten the constructor defined in `start`, resolving further super() calls along the MRO of `cls`."""
+def _flatten_from(repo: Repo, cls: ClassInfo, start: ClassInfo, depth: int, node_of: Any = None) -> Tuple[List[ast.stmt], List[FuncInfo]]:
+    """flatten the constructor defined in `start`, resolving further super() calls along the MRO of `cls`.
+    `node_of(fn)` may supply a transformed definition (e.g. with private helpers expanded)."""
     init = start.methods["__init__"]
     chain = [init]
     out: List[ast.stmt] = []
-    for st in body_without_docstring(init.node):
+    for st in body_without_docstring(node_of(init) if node_of is not None else init.node):
         call = _is_super_init(st)
         if call is None:
             out.append(st)
@@ -125,10 +126,10 @@ def _flatten_from(repo: Repo, cls: ClassInfo, start: ClassInfo, depth: int) -> T
             continue
         if depth > 8:
             raise AnalysisError("constructor chain too deep at %s" % cls.qualname)
-        pbody, pchain = _flatten_from(repo, cls, parent_cls, depth + 1)
+        pbody, pchain = _flatten_from(repo, cls, parent_cls, depth + 1, node_of)
         chain.extend(pchain)
         prefix = "__p%d_" % (depth + 1)
-        pnode = parent_cls.methods["__init__"].node
+        pnode = node_of(parent_cls.methods["__init__"]) if node_of is not None else parent_cls.methods["__init__"].node
         mapping = {n: prefix + n for n in _locals_of(pnode)}
         params = [a.arg for a in pnode.args.posonlyargs + pnode.args.args][1:]
         defaults = pnode.args.defaults
